@@ -955,7 +955,11 @@ func x13RunPart(t *testing.T, part string) {
 	r.Assume("HTTP filters get HTTP contexts, MQTT filters MQTT contexts (protocol mismatch between a traffic gate and its pipeline is not generated); listening ports are chosen by the harness")
 	r.Assume("Kafka/KafkaMQTT run against sarama's in-process mock broker; a spec whose (mutated) broker address is unreachable is validated but not instantiated")
 
-	env := x13GetEnv(r.TmpDir())
+	env, envErr := x13GetEnv(r.TmpDir())
+	if env == nil {
+		r.Inconclusive("harness environment could not be built: " + envErr)
+		return
+	}
 	h := &x13H{r: r, env: env, seen: map[string]bool{}}
 	if blk, _ := pem.Decode([]byte(env.certPEM)); blk != nil {
 		h.peer, _ = x509.ParseCertificate(blk.Bytes)
